@@ -225,21 +225,51 @@ func packStream(b []byte) []byte {
 }
 
 func hostileHeader(r *lib.Rng) []byte {
+	put := func(b []byte, v uint32) []byte {
+		var w [4]byte
+		binary.LittleEndian.PutUint32(w[:], v)
+		return append(b, w[:]...)
+	}
+	finish := func(b []byte) []byte {
+		if len(b)%8 != 0 {
+			b = append(b, 0, 0, 0, 0)
+		}
+		return append(b, r.Bytes(8*r.Intn(4))...)
+	}
+	switch r.Intn(6) {
+	case 0:
+		// many segments, all of them tiny: only the segment-count limit stands between the header and acceptance
+		nseg := uint32(r.Pick(509, 510, 511, 512, 513, 514, 600, 777, 1022, 1023, 1024, 2000))
+		b := put(nil, nseg)
+		words := 0
+		for i := 0; i <= int(nseg); i++ {
+			sz := uint32(r.Pick(0, 0, 0, 1))
+			words += int(sz)
+			b = put(b, sz)
+		}
+		if len(b)%8 != 0 {
+			b = append(b, 0, 0, 0, 0)
+		}
+		return append(b, r.Bytes(8*words)...)
+	case 1:
+		// individually legal segment sizes whose sum passes 4 GiB (and is small modulo 2^32 bytes)
+		combos := [][]uint32{{0x10000000, 0x10000000}, {0x1fffffff, 1}, {0x1fffffff, 1, 1}, {0x1fffffff, 0x1fffffff, 0x1fffffff, 0x1fffffff, 0x1fffffff, 0x1fffffff, 0x1fffffff, 0x1fffffff, 8},
+			{0x10000000, 0x10000000, 1}, {0x08000000, 0x08000000, 0x08000000, 0x08000000}, {0x10000001, 0x0fffffff}, {0x18000000, 0x08000002}}
+		c := combos[r.Intn(len(combos))]
+		b := put(nil, uint32(len(c)-1))
+		for _, sz := range c {
+			b = put(b, sz)
+		}
+		return finish(b)
+	}
 	nseg := uint32(r.Pick(0, 1, 2, 3, 510, 511, 512, 513, 514, 0xffff, 0x3ffffffe, 0x7fffffff, 0xffffffff))
-	b := make([]byte, 4)
-	binary.LittleEndian.PutUint32(b, nseg)
+	b := put(nil, nseg)
 	cnt := int(nseg) + 1
 	if cnt > 600 || cnt < 0 {
 		cnt = r.Intn(6)
 	}
 	for i := 0; i < cnt; i++ {
-		var w [4]byte
-		binary.LittleEndian.PutUint32(w[:], uint32(r.Pick(0, 1, 2, 0x1fffffff, 0x20000000, 0x7fffffff, 0x80000000, 0xffffffff, 0x10000, 8)))
-		b = append(b, w[:]...)
+		b = put(b, uint32(r.Pick(0, 1, 2, 0x1fffffff, 0x20000000, 0x7fffffff, 0x80000000, 0xffffffff, 0x10000, 8, 0x10000000, 0x0fffffff)))
 	}
-	if len(b)%8 != 0 {
-		b = append(b, 0, 0, 0, 0)
-	}
-	b = append(b, r.Bytes(8*r.Intn(4))...)
-	return b
+	return finish(b)
 }
